@@ -165,12 +165,19 @@ impl Engine for WorldEngine {
     fn shrink(&self, case: &Scenario) -> Vec<Scenario> {
         // find where the violation shows up, to cut the tail first
         let r = self.execute(case);
-        let focus = r
-            .violations
-            .iter()
-            .find(|v| v.property == self.property)
-            .and_then(|v| v.event);
-        shrink_scenario(case, focus)
+        let first = r.violations.iter().find(|v| v.property == self.property);
+        let focus = first.and_then(|v| v.event);
+        let mut out = Vec::new();
+        // a violation found by the adversary's sweep is reproduced by one fault: pin it first
+        if case.focus.is_none() {
+            if let Some(f) = first.and_then(|v| v.focus.clone()) {
+                let mut c = case.clone();
+                c.focus = Some(f);
+                out.push(c);
+            }
+        }
+        out.extend(shrink_scenario(case, focus));
+        out
     }
     fn reach_probes(&self) -> Vec<&'static str> {
         let mut v = vec!["op.mint.ok", "op.attenuate.ok", "op.tp_attach.ok", "op.seal.ok", "op.reload.ok"];
@@ -179,6 +186,12 @@ impl Engine for WorldEngine {
             "C08" => v.extend_from_slice(&["sealed.append_refused", "sealed.request_refused", "sealed.reseal_refused"]),
             "C16" => v.extend_from_slice(&["reach.sigv1", "reach.sigv0_only"]),
             "C03" => v.extend_from_slice(&["c03.child_allowed"]),
+            "C01" => v.extend_from_slice(&[
+                "fault.wrong_root", "rejected.pl.flip", "rejected.blk.swap", "rejected.blk.drop", "rejected.blk.drop+proof",
+                "rejected.blk.insert_aux", "rejected.nk.rand", "rejected.sig.flip", "rejected.sig.twin", "rejected.ver.set",
+                "rejected.ext.del", "rejected.ext.move", "rejected.proof.flip", "rejected.proof.from_aux", "rejected.byte.flip",
+                "rejected.byte.trunc", "accepted_legit.kid.set", "accepted_legit.enc.unknown", "rejected.blk.append_forged",
+            ]),
             "C04" => v.extend_from_slice(&["c04.decision.allowed", "c04.decision.nopolicy", "c04.decision.refused_allow", "c04.decision.refused_deny"]),
             _ => {}
         }
@@ -186,7 +199,7 @@ impl Engine for WorldEngine {
     }
     fn level(&self) -> &'static str {
         match self.property.as_str() {
-            "C07" | "C08" | "C15" => "fault_enumeration",
+            "C01" | "C07" | "C08" | "C15" => "fault_enumeration",
             _ => "exploration",
         }
     }
